@@ -101,7 +101,13 @@ def actions():
                 choices.append([("NUM", 2)])
             else:
                 choices.append([(kind, "s0"), (kind, "s1")])
-        for combo in itertools.product(*choices):
+        combos = list(itertools.product(*choices))
+        if len(combos) > 4:
+            # bounded and declared: all-first, all-second and the two alternating assignments of the pool objects
+            k = len(choices)
+            combos = [tuple(c[i % 2 if pat == 2 else (i + 1) % 2 if pat == 3 else pat] if len(c) > 1 else c[0] for i, c in enumerate(choices)) for pat in (0, 1, 2, 3)]
+            combos = list(dict.fromkeys(combos))
+        for combo in combos:
             acts.append((op.name, combo))
         if op.coll and all(k in C.COLLECTABLE for k in op.kinds):
             acts.append((op.name, tuple((k, "c") for k in op.kinds)))
